@@ -31,6 +31,11 @@ pub struct Case {
     pub seg: Seg,
     pub pause: PauseAt,
     pub reads: Vec<usize>,
+    /// when present the response is reached through a redirect whose own body (Content-Length 40, chunked or close-delimited by
+    /// the variant) has arrived only up to this fraction when the server pauses on that first connection: following the
+    /// redirect needs the head only and must not wait for the rest of that body
+    #[serde(default)]
+    pub redirect_first: Option<(u8, u16)>,
 }
 
 pub struct C19;
@@ -93,14 +98,16 @@ non-trivial = pause inside the body and entitled bytes non-empty";
                 1 => Just(PauseAt::AfterFrame),
             ],
             read_sizes(),
+            prop_oneof![4 => Just(None), 1 => (0u8..3, any::<u16>()).prop_map(Some)],
         )
-            .prop_map(|(payload, framing, hdr_style, seg, pause, reads)| Case {
+            .prop_map(|(payload, framing, hdr_style, seg, pause, reads, redirect_first)| Case {
                 payload,
                 framing,
                 hdr_style,
                 seg,
                 pause,
                 reads,
+                redirect_first,
             })
             .boxed()
     }
@@ -123,7 +130,44 @@ non-trivial = pause inside the body and entitled bytes non-empty";
         let a = entitled(&built, &case.framing, k);
         let mut events = seg_upto(&case.seg, &built.wire, &built.structural, k);
         events.push(Ev::Pause);
-        let (res, net, _guard) = get_scripted(events, |rb| rb);
+        let (res, net, _guard) = match &case.redirect_first {
+            None => get_scripted(events, |rb| rb),
+            Some((variant, f)) => {
+                let body = b"this redirect body is forty octets long.";
+                let (head, wire_body): (&[u8], Vec<u8>) = match variant % 3 {
+                    0 => (b"HTTP/1.1 307 Temporary Redirect\r\nLocation: /res2\r\nContent-Length: 40\r\n\r\n", body.to_vec()),
+                    1 => (b"HTTP/1.1 302 Found\r\nLocation: /res2\r\nTransfer-Encoding: chunked\r\n\r\n", [&b"28\r\n"[..], &body[..], &b"\r\n0\r\n\r\n"[..]].concat()),
+                    _ => (b"HTTP/1.1 301 Moved Permanently\r\nLocation: /res2\r\n\r\n", body.to_vec()),
+                };
+                // at most all but the last byte of the redirect's body has arrived
+                let k = ((*f as usize) * wire_body.len()) >> 16;
+                let mut first = vec![Ev::Data(head.to_vec())];
+                if k > 0 {
+                    first.push(Ev::Data(wire_body[..k].to_vec()));
+                }
+                first.push(Ev::Pause);
+                let (guard, net) = crate::transport::serve_scripts(vec![first, events]);
+                let res = attohttpc::get(crate::client::BASE_URL).proxy_settings(crate::client::no_proxy()).send();
+                // the redirect's connection must not have been asked for bytes that were not sent
+                {
+                    let n = net.lock().unwrap();
+                    if let Some(d) = n.dials.first() {
+                        if d.1.lock().unwrap().would_block != 0 {
+                            return Outcome::fail("C19:redirect-body-awaited", format!("send() waited for the rest of a redirect response's body before following it ({k} of {} body bytes had arrived)", wire_body.len()));
+                        }
+                    }
+                    if n.dials.len() != 2 {
+                        return Outcome::fail("C19:redirect-not-followed", format!("{} connections; result {:?}", n.dials.len(), res.as_ref().map(|r| r.status())));
+                    }
+                }
+                ctx.label("reached-through-redirect");
+                // from here on the observed connection is the second one
+                let mut n = net.lock().unwrap();
+                n.dials.remove(0);
+                drop(n);
+                (res, net, guard)
+            }
+        };
         let wb = || net.lock().unwrap().dials[0].1.lock().unwrap().would_block;
         let mut resp = match res {
             Ok(r) => r,
